@@ -38,7 +38,37 @@ Definition guard_table : list (string * list string) := [
   ("dhcpd.v4Server.leases", ["dhcpd.v4Server.leasesLock"]);
   ("dhcpd.v4Server.hostsIndex", ["dhcpd.v4Server.leasesLock"]);
   ("dhcpd.v4Server.ipIndex", ["dhcpd.v4Server.leasesLock"]);
-  ("dhcpd.v4Server.leasedOffsets", ["dhcpd.v4Server.leasesLock"])
+  ("dhcpd.v4Server.leasedOffsets", ["dhcpd.v4Server.leasesLock"]);
+  ("dhcpd.v6Server.leases", ["dhcpd.v6Server.leasesLock"]);
+  (* internal/dnsforward/dnsforward.go: "serverLock protects Server" *)
+  ("dnsforward.Server.access", ["dnsforward.Server.serverLock"]);
+  ("dnsforward.Server.conf", ["dnsforward.Server.serverLock"]);
+  ("dnsforward.Server.dnsProxy", ["dnsforward.Server.serverLock"]);
+  ("dnsforward.Server.internalProxy", ["dnsforward.Server.serverLock"]);
+  ("dnsforward.Server.isRunning", ["dnsforward.Server.serverLock"]);
+  ("dnsforward.Server.stats", ["dnsforward.Server.serverLock"]);
+  ("dnsforward.Server.queryLog", ["dnsforward.Server.serverLock"]);
+  (* internal/filtering/filtering.go: engineLock (engines and rule storages), "confMu protects conf", "filtersMu protects filter lists" *)
+  ("filtering.DNSFilter.rulesStorage", ["filtering.DNSFilter.engineLock"]);
+  ("filtering.DNSFilter.filteringEngine", ["filtering.DNSFilter.engineLock"]);
+  ("filtering.DNSFilter.rulesStorageAllow", ["filtering.DNSFilter.engineLock"]);
+  ("filtering.DNSFilter.filteringEngineAllow", ["filtering.DNSFilter.engineLock"]);
+  ("filtering.Config.Filters", ["filtering.Config.filtersMu"]);
+  ("filtering.Config.WhitelistFilters", ["filtering.Config.filtersMu"]);
+  ("filtering.Config.UserRules", ["filtering.Config.filtersMu"]);
+  ("filtering.Config.ProtectionEnabled", ["filtering.DNSFilter.confMu"]);
+  ("filtering.Config.ProtectionDisabledUntil", ["filtering.DNSFilter.confMu"]);
+  ("filtering.Config.BlockingMode", ["filtering.DNSFilter.confMu"]);
+  ("filtering.Config.BlockingIPv4", ["filtering.DNSFilter.confMu"]);
+  ("filtering.Config.BlockingIPv6", ["filtering.DNSFilter.confMu"]);
+  ("filtering.Config.BlockedResponseTTL", ["filtering.DNSFilter.confMu"]);
+  ("filtering.Config.SafeBrowsingEnabled", ["filtering.DNSFilter.confMu"]);
+  ("filtering.Config.ParentalEnabled", ["filtering.DNSFilter.confMu"]);
+  ("filtering.Config.SafeSearchConf", ["filtering.DNSFilter.confMu"]);
+  ("filtering.Config.BlockedServices", ["filtering.DNSFilter.confMu"]);
+  ("filtering.Config.Rewrites", ["filtering.DNSFilter.confMu"]);
+  ("filtering.Config.SafeBrowsingBlockHost", ["filtering.DNSFilter.confMu"]);
+  ("filtering.Config.ParentalBlockHost", ["filtering.DNSFilter.confMu"])
 ].
 
 (** Method names that modify their receiver: a call of such a method on a value
